@@ -156,6 +156,9 @@ func run(c *mc.Ctx, u mc.Unit) {
 		return true
 	}
 	leavesBefore := len(chain.Leaves())
+	// the node has been serving queries: every exported query is answered on these objects before the reorg (answers a
+	// facade or a tree keeps in memory must not outlive the blocks they came from)
+	a.Observe(chain)
 	b := uint64(1 + c.Choose(n+2, "reorg-point"))
 	release := func() {}
 	if p.Reader && c.Bool("reader-holds-a-connection-during-the-reorg") {
@@ -276,6 +279,9 @@ func run(c *mc.Ctx, u mc.Unit) {
 	}
 	// absolute oracle for what the reference defines: last processed block and tree roots
 	absolute(c, p, a, chain)
+	for m := range sk.SkippedMethods {
+		c.Witness("facade_method_not_observed/" + m)
+	}
 }
 
 func absolute(c *mc.Ctx, p params, a *sk.Node, chain *sk.Chain) {
